@@ -414,7 +414,10 @@ func init() {
 					return &IfaceVal{}
 				}
 			}
-			site, _ := ex.instrSite(st, c)
+			site := "deferred"
+			if c != nil {
+				site, _ = ex.instrSite(st, c)
+			}
 			return ex.newOpaqueError(name + "@" + site)
 		}
 	}
